@@ -299,6 +299,12 @@ def r9_settings_text_codec_siblings(ctx):
     ctx.ob("R19.9", "StringMap:writer-and-reader-agree", ok, (joins[0][0].site if joins else ""), "to_bytes writes `key=value` lines joined by \\n; from_bytes splits into lines and at the first `=`" if ok else
            "StringMap::to_bytes and from_bytes do not describe the same format (separator %s, '=' written: %s, line split: %s, split at first '=': %s, split at last '=': %s): settings and padding schemes do not "
            "survive the trip between the two ends" % (sep, has_eq, by_lines, first_eq, last_eq))
+    # every line is read: nothing limits or thins out the iteration over the lines (a pushed scheme longer than a "hardening" limit
+    # would be adopted truncated — its md5, taken over all the bytes, still matches, so it is never pushed again either)
+    thin = [c for c, o_ in fcs if (c.norm or "").split("::")[-1] in ("take", "skip", "step_by", "take_while", "skip_while", "nth", "truncate", "split_off") and "Iterator" in (c.norm or "") + (c.callee or "")]
+    ctx.ob("R19.9", "StringMap:reader-reads-every-line", not thin, thin[0].site if thin else "", "the line iterator is consumed whole" if not thin else
+           "from_bytes runs its lines through `%s(..)`: lines beyond the limit are dropped without a trace — a pushed scheme with more lines is adopted truncated (packets of the dropped lines leave unpadded) and, "
+           "its md5 being that of the full text, is never corrected by a new push" % thin[0].norm.split("::")[-1])
     # the reader tolerates blanks around `=` (`stop = 8`, `1 = 100-400`): key and value are each trimmed *after* the split, so a
     # scheme laid out that way has the key `stop`, not `stop ` — otherwise a valid pushed scheme counts as unparsable
     ins = [(c, o_) for c, o_ in fcs if (c.norm or "").endswith(("HashMap::insert", "StringMap::insert", "BTreeMap::insert")) and len(c.args) > 2]
